@@ -537,6 +537,10 @@ func (fc *FnCtx) applyContract(c *Contract, name string, args []V, sig *types.Si
 }
 
 func (fc *FnCtx) applyContractX(c *Contract, name string, args []V, sig *types.Signature, resTy types.Type, pos token.Pos, extra map[string]V) V {
+	if fc.usedContracts == nil {
+		fc.usedContracts = map[*Contract]bool{}
+	}
+	fc.usedContracts[c] = true
 	if c.Trusted {
 		fc.assumptions["trusted contract: "+c.Name] = true
 	}
